@@ -102,6 +102,10 @@ def gen_scenario(rng, *, family='well', cyclic=False, init_env=False,
         # configuration, no soft graph when there is no soft edge
         scn['defaults'] = True
         scn['workers'] = 10
+    if family in ('well', 'echo') and not cyclic and rng.random() < 0.08:
+        # somebody else schedules another, unrelated graph on a backend of his
+        # own, in another thread, at the same time: two backends share nothing
+        scn['second_master'] = rng.choice((1, 2, 3))
     if rng.random() < 0.1:
         # a first Scheduler is built from the same graph objects and thrown
         # away: constructing one must not change the caller's graphs
@@ -132,6 +136,7 @@ def gen_scenario(rng, *, family='well', cyclic=False, init_env=False,
     if start_fault:
         # the k-th worker thread cannot be started
         scn['fail_thread_start'] = rng.randrange(1, scn['workers'] + 1)
+        scn.pop('second_master', None)   # (his thread is not the target)
     if cyclic and ntask >= 1:
         # add one or two back edges (self loops included)
         for _ in range(rng.choice((1, 1, 2))):
@@ -274,8 +279,11 @@ def scripted_update(scn, i, run_tag='r'):
     tsk = scn['tasks'][i]
     name = tsk['name']
     upd = {name: {'result': leaf(run_tag, i, 'result'),
+                  'nothing': None, 'zero': 0,
                   'extra': {'a': leaf(run_tag, i, 'a'),
-                            'deep': {'b': leaf(run_tag, i, 'b')}}}}
+                            'deep': {'b': leaf(run_tag, i, 'b')},
+                            # "no value" is a value too, and so are falsy ones
+                            'nothing': None, 'zero': 0, 'empty': ''}}}
     if tsk.get('shared'):
         upd['shared-area'] = {'by': {name: leaf(run_tag, i, 'shared')}}
     return upd
@@ -322,7 +330,9 @@ def scripted_return(scn, i, status_enum, run_tag='r'):
     if out == 'none':
         return None
     if out == 'notpair':
-        return pick(42, 'a string', [1, 2, 3], upd, 0, '', (), [])
+        return pick(42, 'a string', [1, 2, 3], upd, 0, '', (), [],
+                    iter((upd, status_enum.DONE)),
+                    (x for x in (upd, status_enum.DONE)))
     if out == 'triple':
         return (upd, status_enum.DONE, 'extra') if var % 2 else (upd,)
     if out == 'badstatus':
@@ -586,7 +596,42 @@ def run_scenario(scn, chooser, *, max_steps=200000):
     sim.fail_thread_start = scn.get('fail_thread_start')
     holder = {}
 
+    def other_master(ntask):
+        task_mod = mods['task']
+
+        class Quick(task_mod.Task):
+            def do(self, env, config):
+                core.cur_sim().yield_point('work')
+                return {self.name: {'x': 1}}, task_mod.TaskStatus.DONE
+
+        graph = mods['depgraph'].DepGraph()
+        quick = [Quick('other-%d' % k) for k in range(ntask)]
+        for k, tsk in enumerate(quick):
+            graph.add_node(tsk)
+            if k:
+                graph.add_dependency(tsk, on=quick[k - 1])
+        try:
+            env2 = mods['scheduler'].Scheduler(
+                hard_graph=graph,
+                backend=mods['queue'].QueueScheduling(n_workers=2)).schedule()
+            holder['second'] = sorted(
+                status_name(env2[t.name]['status']) for t in quick)
+        except Exception as exc:   # noqa
+            holder['second'] = 'raised %r' % (exc,)
+
     def main():
+        second = None
+        if scn.get('second_master'):
+            second = core.shims()[0].Thread(
+                target=other_master, args=(scn['second_master'],))
+            second.start()
+        try:
+            return main_schedule()
+        finally:
+            if second is not None:
+                second.join()
+
+    def main_schedule():
         state = {'call': 0}
         objs = build_tasks(scn, mods, recorder, state=state)
         hard, soft = build_graphs(scn, mods, objs)
@@ -652,6 +697,9 @@ def run_scenario(scn, chooser, *, max_steps=200000):
     outcome = sim.run(main_recording)
     res = RunResult()
     res.alive_at_return = holder.get('alive_at_return', [])
+    res.second = holder.get('second')
+    res.second_want = ['DONE'] * scn['second_master'] \
+        if scn.get('second_master') else None
     res.sim = sim
     res.outcome = outcome
     res.main_exc = sim.main_exc
@@ -822,12 +870,15 @@ def oracle_c03(scn, res):
         viol.append(('no-progress', 'no-progress:steplimit',
                      {'steps': res.sim.steps, 'alive': res.alive}))
     elif kind == 'ok':
-        if res.alive_at_return:
+        if res.alive_at_return and res.second_want is None:
             viol.append(('worker-leak', 'worker-alive-when-the-call-returns',
                          {'alive': res.alive_at_return,
                           'main_exc': repr(res.main_exc)[:100]}))
         if res.main_exc is None and not res.returned_env:
             viol.append(('no-env-returned', 'no-env-returned', {}))
+        if res.second_want is not None and res.second != res.second_want:
+            viol.append(('other-master', 'the-other-scheduling-was-disturbed',
+                         {'got': res.second, 'want': res.second_want}))
         if res.queue_state is not None and res.main_exc is None and \
                 res.queue_state != 0:
             viol.append(('queue-not-empty', 'queue-not-empty',
@@ -956,6 +1007,10 @@ def shrink_candidates(scn):
         new = copy.deepcopy(scn)
         del new['built_twice']
         yield new
+    if scn.get('second_master'):
+        new = copy.deepcopy(scn)
+        del new['second_master']
+        yield new
     if scn.get('fail_thread_start'):
         new = copy.deepcopy(scn)
         del new['fail_thread_start']
@@ -992,6 +1047,8 @@ def sched_facts(scn, res):
         facts['scenarios-cyclic'] = 1
     facts['workers:%d' % scn['workers']] = 1
     facts['graphs-built-via:%s' % scn.get('graph_api', 'add')] = 1
+    if scn.get('second_master'):
+        facts['scenarios-with-a-second-master-on-its-own-backend'] = 1
     if scn.get('built_twice'):
         facts['scenarios-with-a-scheduler-built-twice-from-one-graph'] = 1
     if scn.get('defaults'):
